@@ -118,6 +118,11 @@ def render(term, aliases: list) -> str:
     if k == "alias_param":
         body = render(term["body"], aliases)
         arg = render(term["arg"], aliases)
+        # one alias per distinct body: two uses of the same parametrised alias with DIFFERENT arguments in one class are
+        # ordinary code (`ints: Pair[int]`, `strs: Pair[str]`)
+        for line in aliases:
+            if line.endswith(f"[X] = {body}"):
+                return f"{line.split()[1].split('[')[0]}[{arg}]"
         name = f"A{len(aliases)}"
         aliases.append(f"type {name}[X] = {body}")
         return f"{name}[{arg}]"
